@@ -47,6 +47,7 @@ pub fn execute(case: &str) -> String {
     match t[0] {
         "lim.srv" => exec_lim_srv(&t),
         "lim.cli" => exec_lim_cli(&t),
+        "lim.gen" => exec_lim_gen(&t),
         _ => crate::framing::execute(case),
     }
 }
@@ -231,8 +232,80 @@ fn exec_lim_cli(t: &[&str]) -> String {
     })
 }
 
+//   lim.gen <method j of pool service a.S> <client enc|-> <client dec|-> <server enc|-> <server dec|-> <n> Q <request wire len> R <response wire len>*
+//        a GENERATED client (tonic-build) calls a GENERATED server directly; the four limits are set
+//        through the generated builder methods.  observed: ok<#responses> | err<code>
+fn exec_lim_gen(t: &[&str]) -> String {
+    use crate::c10::pool::{self, Handler};
+    let rt = paused_rt();
+    rt.block_on(async move {
+        let j: usize = t[1].parse().unwrap();
+        let (ce, cd, se, sd) = (opt(t[2]), opt(t[3]), opt(t[4]), opt(t[5]));
+        let n: usize = t[6].parse().unwrap();
+        let mut srv = pool::p0::s_server::SServer::new(Handler::default());
+        if let Some(l) = sd {
+            srv = srv.max_decoding_message_size(l);
+        }
+        if let Some(l) = se {
+            srv = srv.max_encoding_message_size(l);
+        }
+        let mut cli = pool::p0::s_client::SClient::new(srv);
+        if let Some(l) = cd {
+            cli = cli.max_decoding_message_size(l);
+        }
+        if let Some(l) = ce {
+            cli = cli.max_encoding_message_size(l);
+        }
+        let arg = "x".repeat(n);
+        let r: Result<usize, Status> = match j {
+            0 => cli.m0(Request::new(arg)).await.map(|_| 1),
+            3 => match cli.m3(Request::new(arg)).await {
+                Ok(s) => pool::drain(s.into_inner()).await.map(|v| v.len()),
+                Err(e) => Err(e),
+            },
+            4 => cli.m4(Request::new(tokio_stream::iter(vec![arg.clone(), arg]))).await.map(|_| 1),
+            _ => match cli.m5(Request::new(tokio_stream::iter(vec![arg.clone(), arg]))).await {
+                Ok(s) => pool::drain(s.into_inner()).await.map(|v| v.len()),
+                Err(e) => Err(e),
+            },
+        };
+        match r {
+            Ok(k) => format!("ok{}", k),
+            Err(st) => format!("err{}", st.code() as i32),
+        }
+    })
+}
+
+fn gen_lim_gen(rng: &mut Rng, out: &mut Vec<String>) {
+    use prost::Message;
+    let lims: Vec<Option<usize>> = vec![None, Some(0), Some(2), Some(3), Some(4), Some(5), Some(8)];
+    for j in [0usize, 3, 4, 5] {
+        for n in [0usize, 1, 2, 3, 6] {
+            let total = if j >= 4 { 2 * n } else { n };
+            let c = crate::c10::pool::resp_code(0, j, total);
+            let rs: Vec<usize> = if j == 3 || j == 5 { vec![c.encoded_len(), (c + 1_000_000).encoded_len()] } else { vec![c.encoded_len()] };
+            let q = "x".repeat(n).encoded_len();
+            for _ in 0..12 {
+                let pick = |rng: &mut Rng| *rng.pick(&lims);
+                // mostly one limit at a time (the other three unset), sometimes all drawn
+                let mut l = [None, None, None, None];
+                if rng.chance(2, 3) {
+                    l[rng.below(4) as usize] = pick(rng);
+                } else {
+                    for x in l.iter_mut() {
+                        *x = pick(rng);
+                    }
+                }
+                let tok = |x: Option<usize>| x.map(|v| v.to_string()).unwrap_or("-".into());
+                out.push(format!("lim.gen {} {} {} {} {} {} Q {} R {}", j, tok(l[0]), tok(l[1]), tok(l[2]), tok(l[3]), n, q, rs.iter().map(|r| r.to_string()).collect::<Vec<_>>().join(" ")));
+            }
+        }
+    }
+}
+
 pub fn gen_limits(tier: &str, rng: &mut Rng) -> Vec<String> {
     let mut out = Vec::new();
+    gen_lim_gen(rng, &mut out);
     let lims: Vec<Option<usize>> = vec![None, Some(0), Some(1), Some(5), Some(1024)];
     for side in ["lim.srv", "lim.cli"] {
         for mode in if side == "lim.srv" { vec!["bu", "au", "bs", "bc", "ac", "bd"] } else { vec!["f", "c"] } {
